@@ -107,6 +107,7 @@ type Exec struct {
 	initDone  map[*ssa.Package]bool
 	inInit    int
 	lenientFn *ssa.Function
+	hashes    map[string][]hashFact
 	constAtoms map[string]int64
 
 	// statistics
@@ -217,6 +218,7 @@ func (ex *Exec) runOnce(fn *ssa.Function) {
 	ex.mapIter = false
 	ex.globals = map[*ssa.Global]*Obj{}
 	ex.symIfs = map[ssa.Instruction]int{}
+	ex.hashes = map[string][]hashFact{}
 	ex.objSeq = 0
 	ex.auxSeq = 0
 	ex.depth = 0
@@ -1115,8 +1117,8 @@ func (ex *Exec) evalInstr(fr *frame, v ssa.Value) Value {
 	case *ssa.MakeMap:
 		return VMap{M: &MapObj{}}
 	case *ssa.MakeSlice:
-		n := ex.concretize(ex.val(fr, x.Len).(VInt).T, 0, 64)
-		c := ex.concretize(ex.val(fr, x.Cap).(VInt).T, 0, 64)
+		n := ex.concretize(ex.val(fr, x.Len).(VInt).T, 0, 8192)
+		c := ex.concretize(ex.val(fr, x.Cap).(VInt).T, 0, 8192)
 		if n < 0 || c < n {
 			panic(unsupported{"make slice with symbolic/large length"})
 		}
@@ -1282,8 +1284,37 @@ func (ex *Exec) convert(v Value, from, to types.Type) Value {
 	if fb != nil && tb != nil && fb.Info()&types.IsInteger != 0 && tb.Info()&types.IsInteger != 0 {
 		return VInt{ex.wrap(v.(VInt).T, tb, false)}
 	}
-	if _, ok := v.(VStr); ok {
-		return v // string <-> []byte: same atom / same bytes
+	_, toSlice := to.Underlying().(*types.Slice)
+	_, fromSlice := from.Underlying().(*types.Slice)
+	toStr := tb != nil && tb.Info()&types.IsString != 0
+	if sv, ok := v.(VStr); ok {
+		if toSlice && sv.Atom == nil {
+			// string -> []byte: a fresh mutable copy
+			ts, _ := ex.byteTerms(sv)
+			return termsToSlice(ex, append([]Term{}, ts...))
+		}
+		return v // atoms: same identity under both types
+	}
+	if sl, ok := v.(VSlice); ok && fromSlice && toStr {
+		ts, _ := ex.byteTerms(sl)
+		allc := true
+		for _, t := range ts {
+			allc = allc && t.Const
+		}
+		if allc {
+			raw := make([]byte, len(ts))
+			for i, t := range ts {
+				raw[i] = byte(t.I.Int64())
+			}
+			return concStr(string(raw))
+		}
+		return VStr{Bytes: append([]Term{}, ts...)}
+	}
+	if _, isSl := v.(VSlice); isSl && (toSlice || toStr) {
+		return v // a byte slice standing in for its textual rendering (address String() modelled as identity)
+	}
+	if fb != nil && fb.Info()&types.IsInteger != 0 && tb != nil && tb.Info()&types.IsFloat != 0 {
+		return VOpaque{Kind: "float"}
 	}
 	panic(unsupported{"convert " + from.String() + " -> " + to.String()})
 }
@@ -1320,6 +1351,36 @@ func (ex *Exec) binop(op token.Token, a, b Value, opType, resType types.Type) Va
 			}
 			q, _ := ex.divModPos(x.T, p.I) // floor division = arithmetic shift for both signs
 			return VInt{q}
+		case token.AND, token.OR, token.XOR, token.AND_NOT:
+			if x.T.Const && y.T.Const {
+				var r big.Int
+				switch op {
+				case token.AND:
+					r.And(x.T.I, y.T.I)
+				case token.OR:
+					r.Or(x.T.I, y.T.I)
+				case token.XOR:
+					r.Xor(x.T.I, y.T.I)
+				default:
+					r.AndNot(x.T.I, y.T.I)
+				}
+				return VInt{ex.wrap(IntB(&r), bt, false)}
+			}
+			if op == token.AND {
+				// x & (2^k - 1) on an unsigned operand is x mod 2^k
+				c, o := y.T, x.T
+				if x.T.Const {
+					c, o = x.T, y.T
+				}
+				if c.Const && c.I.Sign() >= 0 && bt != nil && bt.Info()&types.IsUnsigned != 0 {
+					p := new(big.Int).Add(c.I, big.NewInt(1))
+					if p.BitLen() > 0 && new(big.Int).And(p, c.I).Sign() == 0 {
+						_, r := ex.divModPos(o, p)
+						return VInt{r}
+					}
+				}
+			}
+			panic(unsupported{"bitwise " + op.String() + " on symbolic operands"})
 		case token.LSS:
 			return VBool{Lt(x.T, y.T)}
 		case token.LEQ:
@@ -1661,6 +1722,13 @@ func (ex *Exec) builtin(fr *frame, b *ssa.Builtin, cc *ssa.CallCommon, args []Va
 		}
 	case "append":
 		s := args[0].(VSlice)
+		if sv, ok := args[1].(VStr); ok {
+			ts, ok2 := ex.byteTerms(sv)
+			if !ok2 {
+				panic(unsupported{"append of an atom byte string"})
+			}
+			args[1] = termsToSlice(ex, append([]Term{}, ts...))
+		}
 		add := args[1].(VSlice)
 		if add.Len == 0 {
 			return s
@@ -1685,6 +1753,13 @@ func (ex *Exec) builtin(fr *frame, b *ssa.Builtin, cc *ssa.CallCommon, args []Va
 		return VSlice{O: ex.newObj(VArr{e}), Len: len(e), Cap: len(e)}
 	case "copy":
 		dst := args[0].(VSlice)
+		if sv, ok := args[1].(VStr); ok {
+			ts, ok2 := ex.byteTerms(sv)
+			if !ok2 {
+				panic(unsupported{"copy from an atom byte string"})
+			}
+			args[1] = termsToSlice(ex, append([]Term{}, ts...))
+		}
 		src := args[1].(VSlice)
 		n := dst.Len
 		if src.Len < n {
